@@ -408,12 +408,27 @@ def eval_conv(ctx, cases):
         inpl = impl_outcome(lambda: q2.to(u2, inplace=True))
         untouched = (q.value == v and q.unit == u)
         back = impl_outcome(lambda: q.to(u2).to(u))
-        impl.append((copy, inpl, untouched, back, (q2.value, q2.unit)))
+        # the converted-in-place object must behave like the copy in later arithmetic and comparisons
+        after_use = None
+        if inpl[0] == 'ok' and copy[0] == 'ok':
+            cp = q.to(u2)
+            try:
+                r1, r2 = q2 + q2, cp + cp
+                r3, r4 = q2 * 2, cp * 2
+                r5, r6 = q2 / 3, cp / 3
+                same = all(type(a) is type(b) and a.value == b.value and a.unit == b.unit for a, b in ((r1, r2), (r3, r4), (r5, r6)))
+                same = same and (q2 == cp) and not (q2 != cp) and (q2 <= cp) and (q2 >= cp) and (abs(q2).value == abs(cp).value)
+                if v != 0:
+                    same = same and (q2 / cp == 1.0)
+                after_use = same
+            except Exception as ex:  # noqa: BLE001
+                after_use = type(ex).__name__
+        impl.append((copy, inpl, untouched, back, (q2.value, q2.unit), after_use))
         lines.append(f'u to {desc([k, v, u])} {uidx(k, u2)}')
         lines.append(f'u toi {desc([k, v, u])} {uidx(k, u2)}')
         keep.append(c)
     model = ctx.driver.ask(lines) if ctx.driver.available else [None] * len(lines)
-    for i, (c, (copy, inpl, untouched, back, after)) in enumerate(zip(keep, impl)):
+    for i, (c, (copy, inpl, untouched, back, after, after_use)) in enumerate(zip(keep, impl)):
         k, v, u, u2 = c['k'], c['v'], c['u'], c['u2']
         ctx.case_done(c, nontrivial=u != u2)
         ctx.count(f'kind {k}')
@@ -430,6 +445,8 @@ def eval_conv(ctx, cases):
                 ctx.violation(c, {'why': 'in-place conversion differs from the copying one', 'copy': copy, 'inplace': inpl, 'after': after})
             if not untouched:
                 ctx.violation(c, {'why': 'copying conversion modified the original'})
+            if after_use is not True and after_use is not None and not (isinstance(after_use, str) and after_use == 'ValueError'):
+                ctx.violation(c, {'why': 'an object converted in place does not behave like the converted copy in later arithmetic / comparisons', 'detail': after_use})
             if back[0] != 'ok' or (not underflow and not close(float(back[2]), float(v), 1e-12)) or back[3] != u:
                 ctx.violation(c, {'why': 'round trip does not return the original value', 'back': back})
         elif copy[0] == 'err' and copy[1] == 'ValueError' and underflow:
